@@ -474,3 +474,14 @@ impl<'dbg> FatDieRef<'dbg, Function> {
         })
     }
 }
+
+#[cfg(feature = "verif")]
+impl<'dbg, H: Hint> FatDieRef<'dbg, H> {
+    /// Verification hook: offset of the referenced DIE in its unit (`usize::MAX` for virtual DIEs).
+    pub fn verif_die_offset(&self) -> usize {
+        match self.reference {
+            DieReference::Offset(off) => off.0,
+            DieReference::Virtual(_) => usize::MAX,
+        }
+    }
+}
